@@ -1,4 +1,6 @@
 import MithrilModel.RegModel
+import MithrilModel.RegPaths
+import MithrilModel.RegService
 import MithrilModel.Properties.C09
 /-!
 # C06 — All parties derive the same aggregate key from the same registrations
@@ -36,5 +38,97 @@ def C06_distinct := @C09.C09_stm_root_injective
 
 /-- non-vacuity -/
 example : closeReg [⟨2, 7⟩, ⟨1, 9⟩] = closeReg [⟨1, 9⟩, ⟨2, 7⟩] := C06_perm_close (List.Perm.swap _ _ _)
+
+
+/-! ## The three node-level computation paths (`SignerBuilder::new` as the aggregator's epoch service, the signer's
+`MithrilSingleSigner` and the client's `compute_mithril_stake_distribution_message` call it): model `RegPaths.build` -/
+open RegPaths in
+/-- **Node level, order independence**: on an honest signer list (distinct parties, each registered under its own
+identity) the outcome of `SignerBuilder::new` — error class, or closed registration (every slot), total stake and
+aggregate key — is the same for every order of the list -/
+theorem C06_node_perm {l₁ l₂ : List Signer} (h : l₁.Perm l₂) (hwf : WF l₁) : build l₁ = build l₂ := build_perm h hwf
+
+open RegPaths in
+/-- **Node level = core**: what the node-level builder yields on an honest list is exactly the key of the core model
+over the listed (stake, key) pairs: the party identifiers, the stake map and the registration loop add nothing -/
+theorem C06_node_key (H : Bytes → Bytes) {l : List Signer} (hwf : WF l) {b : Built} (hb : build l = .ok b) :
+    avk H (l.map Signer.entry) = .ok (b.key H) := build_key H hwf hb
+
+open RegPaths in
+/-- … and its outcome class is a function of the listed pairs as well: empty list, a repeated key, else the closed
+registration of the pairs (overflow / zero total / ok) -/
+theorem C06_node_outcome {l : List Signer} (hwf : WF l) :
+    build l = if l.isEmpty then .error .empty
+              else if (l.map (·.vk)).Nodup then ofClose (closeReg (l.map Signer.entry))
+              else .error .dupKey := build_eq hwf
+
+/-- observation (outside the honest input space): one party listed twice under two stakes — the last stake wins,
+the outcome depends on the order -/
+theorem C06_dup_party_note :
+    RegPaths.build [⟨1, 1, 7, 5⟩, ⟨1, 1, 8, 6⟩] ≠ RegPaths.build [⟨1, 1, 8, 6⟩, ⟨1, 1, 7, 5⟩] :=
+  RegPaths.dup_party_order_dependent
+
+/-! ## The aggregator's epoch service (`MithrilEpochService`): model `RegService.step` -/
+open RegService in
+/-- **Cache coherence, every reachable state**: for EVERY history of store writes, prunes, `inform_epoch`,
+`update_next_signers_with_stake` and `precompute_epoch_data` calls (any arguments, any results): whenever computed
+data is present the current key / multi-signer is the one of `current_signers_with_stake()`, and — unless the last
+`update_next_signers_with_stake` failed to build a multi-signer (ghost flag) — the next key / multi-signer is the one
+of `next_signers_with_stake()` -/
+theorem C06_service_invariant (ops : List Op) : Inv (run {} ops).1 := run_inv ops {} inv_init
+
+open RegService in
+/-- **Cache coherence**: for every history in which no `update_next_signers_with_stake` failed, whenever computed
+data is present: current AVK = AVK(current signers) and next AVK = AVK(next signers) (same for the multi-signers:
+closed registration, every slot, total stake) -/
+theorem C06_service_coherent (ops : List Op) (hno : failedUpdate ops (run {} ops).2 = false) :
+    Coh (run {} ops).1 := run_coherent ops hno
+
+open RegService in
+/-- … and whatever happened before, every SUCCESSFUL `inform_epoch` / `update_next_signers_with_stake` /
+`precompute_epoch_data` leaves a coherent cache -/
+theorem C06_service_ok_coherent (s : St) (op : Op) {e : Nat}
+    (hop : op = .inform e ∨ op = .updateNext ∨ op = .precompute) (hok : (step s op).2 = .ok) :
+    Coh (step s op).1 := step_ok_coherent s op hop hok
+
+open RegService in
+/-- the signer lists the service holds are honest lists in every reachable state (the store keeps one row per
+(epoch, party)) — so the order-independence theorems apply to them -/
+theorem C06_service_lists_honest (ops : List Op) {d : Data} (hd : (run {} ops).1.data = some d) :
+    RegPaths.WF d.cur ∧ RegPaths.WF d.next := (run_dataWF ops {} dataWF_init).lists d hd
+
+open RegService in
+/-- **The aggregator's keys depend on the registration SET only, not on the call history**: two services reached by
+any two histories (no failed update), reporting next (current) signer lists that are permutations of each other,
+hold the same next (current) multi-signer: closed registration, every slot, total stake, aggregate key -/
+theorem C06_service_function_of_set (ops₁ ops₂ : List Op)
+    (h₁ : failedUpdate ops₁ (run {} ops₁).2 = false) (h₂ : failedUpdate ops₂ (run {} ops₂).2 = false)
+    {d₁ d₂ : Data} {c₁ c₂ : Computed}
+    (hd₁ : (run {} ops₁).1.data = some d₁) (hd₂ : (run {} ops₂).1.data = some d₂)
+    (hc₁ : (run {} ops₁).1.computed = some c₁) (hc₂ : (run {} ops₂).1.computed = some c₂) :
+    (d₁.next.Perm d₂.next → c₁.next = c₂.next) ∧ (d₁.cur.Perm d₂.cur → c₁.cur = c₂.cur) :=
+  keys_function_of_set ops₁ ops₂ h₁ h₂ hd₁ hd₂ hc₁ hc₂
+
+/-- full coherence (no side condition) is the goal … -/
+def C06_service_coherent_goal : Prop := RegService.coherent_goal
+/-- … which the code as it is does not meet: an update that cannot build the next multi-signer has already replaced
+`next_signers_with_stake` and leaves the previous key cached next to it (known finding C06-stale-after-failed-update) -/
+theorem C06_service_failed_update_counterexample : ¬ C06_service_coherent_goal :=
+  RegService.failed_update_counterexample
+/-- `update_next_signers_with_stake` refreshes `next_signers_with_stake` only: `next_signers` and
+`total_next_stakes_signers` keep what `inform_epoch` read (known finding C06-stale-next-signers) -/
+theorem C06_service_stale_snapshot_counterexample :
+    ∃ d, (RegService.run {} [.save ⟨1, 1, 7, 5⟩, .save RegService.rowA, .inform 2, .save RegService.rowB, .updateNext]).1.data = some d ∧
+      d.next.map (·.party) = [2, 1] ∧ d.nextSnap = [1] ∧ RegService.totalOf d.next = 11 ∧ d.totalNext = 5 :=
+  RegService.stale_snapshot_counterexample
+
+/-- non-vacuity: a history that reaches computed data, with a registration arriving in between -/
+example : ∃ c, (RegService.run {} [.save ⟨1, 1, 7, 5⟩, .save ⟨2, 1, 7, 5⟩, .inform 2, .precompute]).1.computed = some c ∧
+    RegService.failedUpdate [.save ⟨1, 1, 7, 5⟩, .save ⟨2, 1, 7, 5⟩, .inform 2, .precompute]
+      (RegService.run {} [.save ⟨1, 1, 7, 5⟩, .save ⟨2, 1, 7, 5⟩, .inform 2, .precompute]).2 = false := by
+  refine ⟨⟨⟨[⟨5, 7⟩], 5⟩, ⟨[⟨5, 7⟩], 5⟩⟩, ?_, ?_⟩ <;>
+  simp [RegService.run, RegService.step, RegService.precompute, RegPaths.build, RegPaths.regLoop, RegPaths.stakeOf,
+    closeReg, RegPaths.ofClose, close, RegService.signersAt, RegService.sameKey, RegService.totalOf, RegService.Row.signer,
+    RegService.failedUpdate]
 
 end C06
